@@ -191,11 +191,15 @@ func callPacketMethodOwners(c *Check, rule, method string, owners ...string) {
 				continue
 			}
 			n++
-			ok := false
-			for _, o := range owners {
-				if strings.HasSuffix(funcName(rootFn(fn)), o) {
-					ok = true
+			ok := true
+			for _, at := range c.P.Owners(fn) {
+				one := false
+				for _, o := range owners {
+					if strings.HasSuffix(at, o) {
+						one = true
+					}
 				}
+				ok = ok && one
 			}
 			c.Req(ok, rule, "CallPacket("+method+") in "+funcName(rootFn(fn)), cs.Ins.Pos(), "owner", fmt.Sprintf("privileged packet-contract method %q is invoked from %s (allowed: %v)", method, funcName(fn), owners))
 		}
